@@ -3,7 +3,8 @@
 (* outcomes, for the spec -> code replay leg.                                              *)
 EXTENDS HttpOutcome, Json, IOUtils, SequencesExt
 
-StatusSet == {100, 199, 200, 201, 204, 299, 300, 301, 400, 401, 404, 500, 503}
+\* quick: the boundaries of every class; thorough (STATUSES = "all"): every status code an HTTP response can carry
+StatusSet == IF IOEnv.STATUSES = "all" THEN 100..599 ELSE {100, 199, 200, 201, 204, 299, 300, 301, 400, 401, 404, 500, 503}
 
 Cases == LET rs == SetToSeq(Responses) IN
   [i \in 1..Len(rs) |-> [status |-> rs[i].status, body |-> rs[i].body,
